@@ -1,6 +1,8 @@
 import Cjet.Lemmas.DaemonC11Answer
 import Cjet.Lemmas.DaemonC11Accept
 import Cjet.Lemmas.DaemonC11Example
+import Cjet.Props.Evloop
+import Cjet.Props.Accept
 /-!
 # C11 — a slow, failing or hostile peer harms only itself
 
@@ -326,5 +328,19 @@ theorem accept_original_counterexample :
     acceptCommon [.fd 3, .err .EMFILE] = (.continueLoop, [3]) ∧
     acceptOriginal [.err .EINTR] = (.abortLoop, []) ∧
     acceptCommon [.err .EINTR] = (.continueLoop, []) := by decide
+
+/-! ### component level: the real dispatcher (eventloop_epoll.c) and the real accept loop (linux_io.c) — one peer's events, removals and failed connection attempts leave the turns of all others and the listener untouched -/
+
+theorem evloop_others_undisturbed : type_of% @Cjet.Props.Evloop.others_undisturbed := @Cjet.Props.Evloop.others_undisturbed
+theorem evloop_every_entry_gets_its_turn : type_of% @Cjet.Props.Evloop.every_entry_gets_its_turn := @Cjet.Props.Evloop.every_entry_gets_its_turn
+theorem evloop_error_mask_only_error_function : type_of% @Cjet.Props.Evloop.error_mask_only_error_function_in_batch := @Cjet.Props.Evloop.error_mask_only_error_function_in_batch
+theorem evloop_abort_stops_everything : type_of% @Cjet.Props.Evloop.abort_stops_everything := @Cjet.Props.Evloop.abort_stops_everything
+theorem evloop_eintr_continues : type_of% @Cjet.Props.Evloop.eintr_continues := @Cjet.Props.Evloop.eintr_continues
+theorem accept_fatal_class_exact : type_of% @Cjet.Props.Accept.fatal_class_exact := @Cjet.Props.Accept.fatal_class_exact
+theorem accept_retry_class_exact : type_of% @Cjet.Props.Accept.retry_class_exact := @Cjet.Props.Accept.retry_class_exact
+theorem accept_abort_only_on_fatal : type_of% @Cjet.Props.Accept.abort_only_on_fatal := @Cjet.Props.Accept.abort_only_on_fatal
+theorem accept_listener_survives_transient : type_of% @Cjet.Props.Accept.listener_survives_transient := @Cjet.Props.Accept.listener_survives_transient
+theorem accept_retry_class_continues_accepting : type_of% @Cjet.Props.Accept.retry_class_continues_accepting := @Cjet.Props.Accept.retry_class_continues_accepting
+theorem accept_loop_terminates_when_queue_drains : type_of% @Cjet.Props.Accept.loop_terminates_when_queue_drains := @Cjet.Props.Accept.loop_terminates_when_queue_drains
 
 end Cjet.Props.C11
